@@ -188,6 +188,7 @@ func TestC20Rapid(t *testing.T) {
 			t.Fatalf("C20 violated: %s\nhistory: %s\nfinal options: dirs=%v auto=%v", fmt.Sprintf(format, a...), canonJSON(history), m.dirs, m.auto)
 		}
 		lastStale := ""
+		var prevNames []string
 		noWatcher := false // auto-refresh is on but the watcher could not be created (descriptor shortage)
 		check := func(t *rapid.T) {
 			// half of the time the first thing asked of the cache after the step is Refresh() and the error report,
@@ -232,6 +233,38 @@ func TestC20Rapid(t *testing.T) {
 					time.Sleep(5 * time.Millisecond)
 				}
 			}
+			// or (one time in three, auto mode with or without a watcher): the first thing asked is GetDevice, and only
+			// GetDevice, for the devices the cache listed at the previous check and those a new cache has now
+			if m.auto && rapid.IntRange(0, 2).Draw(t, "getDeviceFirst") == 0 {
+				repr := func(c *cdi.Cache, n string) string {
+					d := c.GetDevice(n)
+					if d == nil {
+						return "nil"
+					}
+					b, _ := json.Marshal(d.Device)
+					return fmt.Sprintf("%s|%d|%s", d.GetSpec().GetPath(), d.GetSpec().GetPriority(), b)
+				}
+				start := time.Now()
+				for {
+					ref, _ := cdi.NewCache(cdi.WithSpecDirs(m.dirs...), cdi.WithAutoRefresh(false))
+					names := append(append([]string{}, prevNames...), ref.ListDevices()...)
+					diff := ""
+					for _, n := range names {
+						if got, want := repr(cache, n), repr(ref, n); got != want && diff == "" {
+							diff = fmt.Sprintf("GetDevice(%s)\ncache:     %s\nnew cache: %s", n, got, want)
+						}
+					}
+					if diff == "" {
+						break
+					}
+					if time.Since(start) > 10*time.Second {
+						fail("GetDevice, asked before any other query, does not reflect the current directories 10 s after the last change (watcher present: %v)\n%s", !noWatcher, diff)
+					}
+					time.Sleep(5 * time.Millisecond)
+				}
+				rec.Label("get-device-asked-first")
+			}
+			defer func() { prevNames = cache.ListDevices() }()
 			if m.auto || lastStale == "" {
 				norm := func(s string) string { return s }
 				if noWatcher {
